@@ -110,6 +110,12 @@ func (c *coalescing) Run(ctx context.Context, ch chan<- struct{}) error {
 
 	// Prevent wg race condition on Close and Run.
 	c.lock.Lock()
+	if c.closed.Load() {
+		// Already closed: do not register with the wait group that Close is
+		// (or was) waiting on.
+		c.lock.Unlock()
+		return nil
+	}
 	c.wg.Add(1)
 	c.lock.Unlock()
 	defer c.wg.Done()
@@ -225,6 +231,11 @@ func (c *coalescing) reset() {
 func (c *coalescing) Add() {
 	c.lock.Lock()
 	defer c.lock.Unlock()
+	if c.closed.Load() {
+		// Closed: nothing will consume the event, and no new goroutine may be
+		// registered with the wait group while Close is waiting on it.
+		return
+	}
 	c.pendingEvents++
 	c.wg.Add(1)
 	go func() {
@@ -239,9 +250,13 @@ func (c *coalescing) Add() {
 func (c *coalescing) Close() {
 	defer func() {
 		// Prevent wg race condition on Close and Run.
+		// Everything that took the lock before us has registered with the wait
+		// group; everything that takes it after us sees closed and does not.
+		// The lock must not be held while waiting: Run needs it to get back to
+		// the select that observes closeCh, and would deadlock with us.
 		c.lock.Lock()
-		c.wg.Wait()
 		c.lock.Unlock()
+		c.wg.Wait()
 	}()
 	if c.closed.CompareAndSwap(false, true) {
 		close(c.closeCh)
